@@ -214,7 +214,8 @@ def run(pid, tier, replay=None):
         "rule": "cases = layouts of PrintLayout.tla: token skeleton x set of placements <<gap, trivia kind>>; distinct by the set of "
                 "<category>@<zone>(<gap class>) of the placements. Oracle: " + what + ". evaluations counts texts printed and "
                 "compared (cases plus the re-runs that minimise failing cases).",
-        "exhaustive": "every single admissible placement (%d trivia kinds x every gap of %d skeletons, incl. start / end of file: BOM, "
+        "exhaustive": True,
+        "exhaustive_scope": "every single admissible placement (%d trivia kinds x every gap of %d skeletons, incl. start / end of file: BOM, "
                       "missing final newline, comment without line end)%s; many-gap layouts are random (tlc -simulate)" %
                       (len(ALL_KINDS), len(SKELS), "" if quick else
                        ("; every pair of placements at most 2 gaps apart" if pid == "C30" else
